@@ -880,6 +880,9 @@ func (x *Exec) doSelect(i *ssa.Select) {
 		rd := "(select " + x.getSV("ChRd", arrII) + " " + c + ")"
 		ln := "(select " + x.getSV("ChLen", arrII) + " " + c + ")"
 		ok := "(< " + rd + " " + ln + ")"
+		// a receive case can only be chosen when an item is there to take or the
+		// channel is closed (at the latest by the end of the run: ChClosed)
+		x.smt.assume(implies(and(x.reach, chosen), or(ok, "(select "+x.getSV("ChClosed", "(Array Int Bool)")+" "+c+")")))
 		v := ite(ok, "(select (select "+x.getSV(at, ats)+" "+c+") "+rd+")", x.smt.zero(elem))
 		x.setSV("ChRd", arrII, "(store "+x.getSV("ChRd", arrII)+" "+c+" "+ite(and(chosen, ok), "(+ "+rd+" 1)", rd)+")")
 		x.smt.assume(implies(and(x.reach, chosen), "(= "+res[1].T+" "+ok+")"))
